@@ -66,6 +66,11 @@ func (e Event) String() string {
 func (w *World) Log(e Event) {
 	if th := w.S.Me(); th != nil {
 		e.Thread = th.Name
+		if e.Actor == "fault" && th.Low == 2 {
+			// a fault actor is last-resort only until it strikes; the action itself (Close,
+			// Stop, ...) then runs like any other thread
+			th.Low = 0
+		}
 	}
 	w.mu.Lock()
 	e.Step = w.step
